@@ -192,7 +192,12 @@ impl ast::Stanza {
         let node = mat
             .nodes_for_capture_index(self.full_match_file_capture_index as u32)
             .next()
-            .expect("missing capture for full match");
+            .ok_or_else(|| {
+                ExecutionError::UndefinedCapture(format!(
+                    "for the full match of the stanza at {}",
+                    self.range.start
+                ))
+            })?;
         debug!("match {:?} at {}", node, self.range.start);
         #[cfg(feature = "verif")]
         crate::verif::emit(|| {
